@@ -215,6 +215,12 @@ def index(ev: Ev, base, idx, node):
             return ev.list_get(o, i)
         if isinstance(o, DictObj):
             k = const_str(idx)
+            if k is None and isinstance(idx, VStr) and not ev.pure and all(isinstance(x, V) for x in o.items.values()):
+                # symbolic key into a literal dict: one branch per key, KeyError otherwise
+                for kk, vv in o.items.items():
+                    if st.decide(idx.t == z3.StringVal(kk)):
+                        return vv
+                ev.require(False, "KeyError", node)
             if k is None:
                 ev.unsupported(node, "non-constant key into a concrete-key dict")
             if k in o.items and o.items[k] is not ABSENT:
